@@ -45,6 +45,12 @@ RULE = (
 PARTIAL = [
     "non-finite INPUT values: `==` / `in` / `remove` are pinned (NaN equals NaN only, infinities equal with the same sign only: "
     "`closeX`, `close_nonfinite`, `eqnf` cases); arithmetic on non-finite inputs is not modelled",
+    "reflected operators whose LEFT operand is a NumPy scalar / array (np.int64(2) * fd, ndarray * fd): NumPy's operator runs "
+    "first (object-array dispatch) — recorded, only required to raise or be pointwise; every other foreign operand is "
+    "judged in both orders (`zoo_cases`, `foreign_rejected_both_orders`)",
+    "bool-valued operands combined with bool-valued operands (`np.add` is a logical or there, `np.subtract` refuses) and "
+    "quotients whose result dtype is float32 (rounded to 24 bits) are left out of the dtype sweep; integer division by zero "
+    "(0 with a warning) is not covered",
     "in-place operators (`+=` …) are not defined: Python falls back to `x = x + y` (a new object, operands untouched) — covered "
     "by the binary cases; unary `-`, `abs`, `**` and reflected `+ - /` are absent (TypeError, sampled in `sc` cases); "
     "BasisFunctionalData defines no arithmetic at all and its `==` is object identity (documented, not modelled)",
@@ -139,12 +145,15 @@ def build(d):
     if d["k"] == "D":
         pts = tuple(len(g) for g in d["grid"])
         vals = np.array([[_num(x) for x in r] for r in d["rows"]], dtype=float).reshape((len(d["rows"]),) + pts)
+        if d.get("dtype"):
+            vals = vals.astype(np.dtype(d["dtype"]))
         return FD.DenseFunctionalData(_dense_argvals(d["grid"]), V.DenseValues(vals))
     if d["k"] == "I":
         grids = {l: g for l, g, _ in d["obs"]}
         aord = d.get("aord") or [l for l, _, _ in d["obs"]]
         arg = A.IrregularArgvals({l: _dense_argvals(grids[l]) for l in aord})
-        val = V.IrregularValues({l: _arr(v).reshape(tuple(len(t) for t in g)) for l, g, v in d["obs"]})
+        dt = np.dtype(d["dtype"]) if d.get("dtype") else np.dtype(float)
+        val = V.IrregularValues({l: _arr(v).reshape(tuple(len(t) for t in g)).astype(dt) for l, g, v in d["obs"]})
         return FD.IrregularFunctionalData(arg, val)
     w = d["what"]
     if w == "basis":
@@ -617,6 +626,28 @@ def mk_scalar(kind, c, shape_like=None):
         return "2"
     if kind == "array":
         return np.full(shape_like if shape_like is not None else (2,), float(c))
+    if kind == "list":
+        return [float(c)]
+    if kind == "tuple":
+        return (float(c),)
+    if kind == "fraction":
+        return Fraction(c)
+    if kind == "decimal":
+        from decimal import Decimal
+
+        return Decimal(float(c))
+    if kind == "complex":
+        return complex(float(c), 1.0)
+    if kind == "dict":
+        return {"a": float(c)}
+    if kind == "npbool":
+        return np.bool_(bool(c))
+    if kind == "array0d":
+        return np.array(float(c))
+    if kind == "npint32":
+        return np.int32(int(c))
+    if kind == "npfloat16":
+        return np.float16(float(c))
     return None
 
 
@@ -893,6 +924,83 @@ def run_share(case):
     return out
 
 
+# operands that are neither functional data nor a Python int / float (subclass): rejected with TypeError by every
+# operator in both orders.  NUMPY_LEFT: on the LEFT NumPy's own operator runs first (object-array dispatch), so the
+# reflected order is not FDApy's to decide and is only required to raise or be pointwise.
+FOREIGN = ["npint64", "npfloat32", "str", "array", "none", "list", "tuple", "fraction", "decimal", "complex", "dict",
+           "npbool", "array0d", "npint32", "npfloat16"]
+NUMPY_LEFT = {"npint64", "npfloat32", "npfloat64", "array", "npbool", "array0d", "npint32", "npfloat16"}
+NUMBERS = ["int", "float", "bool", "npfloat64"]
+
+
+def zoo_cases():
+    """In every run: every operator, both operand orders (`fd op x`, `x op fd`), the whole zoo of non-functional
+    operands, on dense and irregular data."""
+    datas = [D([[0, 1, 2]], [[1, 2, 3], [4, 5, 6]]), I([(0, [[0, 1]], [1, 2]), (1, [[0, 1, 2]], [3, 4, 5])]),
+             D([[0, 1], [0, 1, 2]], [[1, 2, 3, 4, 5, 6]])]
+    for a in datas:
+        for kind in NUMBERS + FOREIGN:
+            for op in OPS:
+                for reflected in (False, True):
+                    yield dict(kind="sc", op=op, a=a, skind="other" if kind == "none" else kind, c=q(2 if kind != "bool" else 1),
+                               reflected=reflected, zoo=True)
+
+
+DTYPES = ["int64", "int32", "float32", "float64", "bool"]
+
+
+def _dtype_vals(dt, n, salt, divisor=False):
+    """n exact values of the given dtype (no zeros for a divisor); float64 values carry 30 fractional bits, so a cast to
+    float32 or to an integer type changes them."""
+    out = []
+    for j in range(n):
+        k = (3 * j + 2 * salt) % 7 + 1
+        if dt in ("int64", "int32"):
+            v = Fraction(k if (j + salt) % 3 else -k)
+        elif dt == "bool":
+            v = Fraction(1 if (divisor or (j + salt) % 2) else 0)
+        elif dt == "float32":
+            v = Fraction(2 * k + 1, 8) * (1 if (j + salt) % 4 else -1)
+        else:
+            v = Fraction(k) + Fraction(2 * k + 1, 2**30) + Fraction(1, 2)
+        out.append(v)
+    return out
+
+
+def dtype_cases():
+    """In every run: operands whose values have dtype int64 / int32 / float32 / float64 / bool in every combination and
+    both orders (dense and irregular), data and scalar operands: the result is the pointwise result of the exact values."""
+    g = [[0, 1, 2]]
+    for kind in ("D", "I"):
+        for da in DTYPES:
+            for db in DTYPES:
+                if da == "bool" and db == "bool":
+                    continue      # NumPy: bool + bool is a logical or, bool - bool is refused: not arithmetic
+                if kind == "D":
+                    a = dict(D(g, [_dtype_vals(da, 3, 0), _dtype_vals(da, 3, 1)]), dtype=da)
+                    b = dict(D(g, [_dtype_vals(db, 3, 2, True), _dtype_vals(db, 3, 3, True)]), dtype=db)
+                else:
+                    a = dict(I([(0, [[0, 1]], _dtype_vals(da, 2, 0)), (1, g, _dtype_vals(da, 3, 1))]), dtype=da)
+                    b = dict(I([(0, [[0, 1]], _dtype_vals(db, 2, 2, True)), (1, g, _dtype_vals(db, 3, 3, True))]), dtype=db)
+                narrow = {da, db} <= {"float32", "bool"}     # a float32 result: quotients are rounded to 24 bits
+                for op in OPS:
+                    if op in ("div", "floordiv") and narrow:
+                        continue
+                    yield dict(kind="bin", op=op, a=a, b=b, respect="ok", dtypes=[da, db])
+                if "bool" not in (da, db) and not narrow:
+                    yield dict(kind="ident", a=a, b=b, c=q(Fraction(3, 2)), dtypes=[da, db])
+            for sk, c in (("int", 3), ("float", Fraction(5, 2)), ("bool", 1), ("npfloat64", Fraction(-3, 2))):
+                a = dict(D(g, [_dtype_vals(da, 3, 0), _dtype_vals(da, 3, 1)]), dtype=da) if kind == "D" else \
+                    dict(I([(0, [[0, 1]], _dtype_vals(da, 2, 0)), (1, g, _dtype_vals(da, 3, 1))]), dtype=da)
+                for op in OPS:
+                    if da == "bool" and sk == "bool" and op in ("add", "sub"):
+                        continue
+                    if da == "float32" and op == "div":
+                        continue      # Python / NumPy scalars are "weak": the quotient stays float32 (24 bits)
+                    yield dict(kind="sc", op=op, a=a, skind=sk, c=q(c), reflected=False, dtypes=[da, sk])
+                yield dict(kind="sc", op="mul", a=a, skind=sk, c=q(c), reflected=True, dtypes=[da, sk])
+
+
 def mvop_cases(rng: Rng, n):
     """The operators a multivariate object inherits from `UserList`: `+` (concatenation through the
     constructor), `*` (repetition), `==` (list equality) — not arithmetic."""
@@ -1147,6 +1255,8 @@ def gen_cases(rng: Rng, tier):
     yield from FIXED
     yield from mv_structured_cases()
     yield from share_cases()
+    yield from zoo_cases()
+    yield from dtype_cases()
     yield from bin_cases(rng, 130 * k)
     yield from derived_cases(rng, 45 * k)
     yield from decimal_cases(rng, 30 * k)
@@ -1438,7 +1548,7 @@ def model_lines(case, impl):
             return []  # the open defect in a regime where NumPy's broadcasting decides; judged by the oracle only
         return [" ".join(["bin", str(flag), case["op"]] + tok(case["a"]) + tok(case["b"]))]
     if k == "sc":
-        if case["reflected"] and case["skind"] not in ("int", "float", "bool", "npfloat64", "str", "other"):
+        if case["reflected"] and case["skind"] in NUMPY_LEFT - {"npfloat64"}:
             return []  # NumPy's dispatch, not FDApy's
         return [" ".join(["rsc" if case["reflected"] else "sc", case["op"], case["skind"], case["c"]] + tok(case["a"]))]
     if k == "eq":
@@ -1661,7 +1771,8 @@ def oracle(case, impl):
                                msg=f"compatible operands were rejected with {impl['err']}: {impl.get('msg')}"))
             elif impl.get("bad"):
                 vs.append(dict(clause="pointwise", entry=entry, causes=order or impl["bad"],
-                               msg=f"`{case['op']}` on compatible operands: {','.join(impl['bad'])}"
+                               msg=f"`{case['op']}` on compatible operands{' with value dtypes ' + ' / '.join(case['dtypes']) if case.get('dtypes') else ''}: "
+                                   f"{','.join(impl['bad'])} (result differs from plain NumPy on the raw arrays)"
                                    + (" (the two value dictionaries are in different insertion orders)" if order else "")))
     elif k == "sc":
         entry = "__rmul__" if (case["reflected"] and case["op"] == "mul") else ("reflected " if case["reflected"] else "") + ENTRY[case["op"]]
@@ -1669,8 +1780,14 @@ def oracle(case, impl):
         if not impl["untouched"]:
             vs.append(dict(clause="operands_untouched", entry=entry, causes=["operand_modified"], msg="the dataset changed during a scalar operation"))
         python_number = kind in ("int", "float", "bool", "npfloat64")
-        if kind in ("str", "other") and "err" not in impl:
-            vs.append(dict(clause="scalar_kinds", entry=entry, causes=["non_number_accepted"], msg=f"operand of kind {kind} was accepted"))
+        foreign = kind in FOREIGN or kind == "other"
+        judged = foreign and not (case["reflected"] and kind in NUMPY_LEFT)
+        if judged and "err" not in impl:
+            vs.append(dict(clause="scalar_kinds", entry=entry, causes=["non_number_accepted"],
+                           msg=f"{'x ' + case['op'] + ' fd' if case['reflected'] else 'fd ' + case['op'] + ' x'} with x of kind {kind} was accepted (must be a TypeError, never a broadcast)"))
+        elif judged and impl.get("err") != "TypeError":
+            vs.append(dict(clause="scalar_kinds", entry=entry, causes=["wrong_class_" + str(impl.get("err"))],
+                           msg=f"operand of kind {kind} rejected with {impl.get('err')} instead of TypeError"))
         if "err" in impl:
             if python_number and (not case["reflected"] or case["op"] == "mul"):
                 vs.append(dict(clause="scalar_kinds", entry=entry, causes=["number_rejected"],
